@@ -333,6 +333,10 @@ class _Inliner:
         # (closures are not listed by _functions: they have not vanished, they are just not top-level)
         vanished = {d for k, d in self.baseline.items() if k not in present and d and not nested(k)}
         vanished_names = {k.split(':')[1] for k in self.baseline if k not in present and not nested(k) and '.' not in k.split(':')[1] and '@' not in k}
+        bp = _baseline_params()
+        # (a static method of the reviewed tree that became a module-level function of the same name has moved, too)
+        vanished_names |= {k.split('.')[-1] for k in self.baseline if k not in present and not nested(k) and k.split(':')[1].count('.') == 1 and '@' not in k
+                           and '#' not in k and (bp.get(k) or ['self'])[0] not in ('self', 'cls')}
         for key, mod, cls, fn, container in _functions(self.mods):
             if key in self.baseline:
                 continue
@@ -505,7 +509,12 @@ class _Inliner:
             arg_names = {y.id for a in bind.values() for y in ast.walk(a) if isinstance(y, ast.Name)}
             if bad or not all(_pure(a) for a in bind.values()) or (bound_inside & (arg_names | set(bind))):
                 return changed
-            new = _Subst(bind).visit(copy.deepcopy(expr))
+            body_expr = copy.deepcopy(expr)
+            cm = getattr(self, 'cur_mod', mod)
+            if cls is None and cm != mod:
+                wrapped = self._qualify([ast.Expr(value=body_expr)], mod, cm, set(bind) | bound_inside)
+                body_expr = wrapped[0].value
+            new = _Subst(bind).visit(body_expr)
             new = _ConstIfExp().visit(new)
             if not _replace_node(s, call, new):
                 return changed
@@ -1492,6 +1501,45 @@ class _NegationsInward(ast.NodeTransformer):
         return node
 
 
+_INPLACE_OPS = {'iadd': ast.Add, 'ior': ast.BitOr, 'iand': ast.BitAnd, 'ixor': ast.BitXor, 'imul': ast.Mult, 'isub': ast.Sub}
+
+
+def _reduce_loops(node, counter=[0]):
+    """`x = functools.reduce(operator.iadd, items, init)` is the accumulation loop `x = init; for t in items: x += t` (reduce calls
+    the function on the running value and each item in order, and operator.iadd(a, b) is `a += b; a`).  A generator expression over
+    one loop variable is written as that loop."""
+    for fld in ('body', 'orelse', 'finalbody'):
+        lst = getattr(node, fld, None)
+        if not (isinstance(lst, list) and lst and isinstance(lst[0], ast.stmt)):
+            continue
+        out = []
+        for st in lst:
+            v = getattr(st, 'value', None)
+            if isinstance(st, ast.Assign) and len(st.targets) == 1 and isinstance(st.targets[0], ast.Name) and isinstance(v, ast.Call) \
+                    and ast.unparse(v.func) in ('functools.reduce', 'reduce') and len(v.args) == 3 and not v.keywords \
+                    and isinstance(v.args[0], ast.Attribute) and ast.unparse(v.args[0].value) == 'operator' and v.args[0].attr in _INPLACE_OPS \
+                    and not any(isinstance(y, ast.Name) and y.id == st.targets[0].id for y in ast.walk(v)):
+                acc = st.targets[0].id
+                it = v.args[1]
+                counter[0] += 1
+                init = ast.copy_location(ast.Assign(targets=[ast.Name(id=acc, ctx=ast.Store())], value=v.args[2]), st)
+                if isinstance(it, (ast.GeneratorExp, ast.ListComp)) and len(it.generators) == 1 and not it.generators[0].ifs and not it.generators[0].is_async:
+                    target, iterable, item = it.generators[0].target, it.generators[0].iter, it.elt
+                else:
+                    tname = f'_red{counter[0]}_item'
+                    target, iterable, item = ast.Name(id=tname, ctx=ast.Store()), it, ast.Name(id=tname, ctx=ast.Load())
+                loop = ast.copy_location(ast.For(target=target, iter=iterable, body=[ast.copy_location(ast.AugAssign(
+                    target=ast.Name(id=acc, ctx=ast.Store()), op=_INPLACE_OPS[v.args[0].attr](), value=item), st)], orelse=[]), st)
+                out += [init, loop]
+            else:
+                if not isinstance(st, (ast.FunctionDef, ast.ClassDef)):
+                    _reduce_loops(st)
+                out.append(st)
+        setattr(node, fld, out)
+    for h in getattr(node, 'handlers', []) or []:
+        _reduce_loops(h)
+
+
 def flatten_guards(mods):
     """Every function of the package in guard-clause form: `if c: <leaves> else: <rest>` (also as an if/elif/else staircase) reads
     `if c: <leaves>` followed by <rest>.  Same paths, same order of evaluation; done in place, line numbers stay."""
@@ -1502,6 +1550,8 @@ def flatten_guards(mods):
         _NegationsInward().visit(tree)
         ast.fix_missing_locations(tree)
         for fn in [x for x in ast.walk(tree) if isinstance(x, ast.FunctionDef)]:
+            _reduce_loops(fn)
+            ast.fix_missing_locations(fn)
             for _ in range(12):
                 body, ch = _unnest(fn.body)
                 fn.body = body
@@ -1779,14 +1829,32 @@ def undo_renames(mods):
     # second phase: a renamed function whose body was also restyled.  A function of the reviewed tree is gone, its name is used
     # nowhere any more, and among the new functions of the same scope and arity exactly one uses the same vocabulary (identifiers,
     # attributes, constants) - that one is read under the old name.  The rules then examine its body as they would the old one's,
-    # so nothing is taken on trust: the association only decides WHICH rules look at it.
-    present = {key: (mod, cls, fn) for key, mod, cls, fn, _c in _functions(mods)}
-
+    # so nothing is taken on trust: the association only decides WHICH rules look at it.  A module-level function may have been
+    # moved to another module at the same time (the model then follows the move, _moved_aliases); parameter names do not count.
     def nested(k):
         parts = k.split('#')[0].split('.')
         return any('.'.join(parts[:i]) in baseline for i in range(1, len(parts)))
-    missing = [k for k, d in baseline.items() if k not in present and d and not nested(k) and '@' not in k]
-    if missing:
+
+    def vocab(fn):
+        out = set()
+        for x in ast.walk(fn):
+            if x is fn:
+                continue
+            if isinstance(x, ast.Name):
+                out.add(x.id)
+            elif isinstance(x, ast.Attribute):
+                out.add(x.attr)
+            elif isinstance(x, ast.Constant) and not (isinstance(x.value, str) and len(x.value) > 20):
+                out.add(repr(x.value))
+        return out
+    base_vocab = _baseline_vocab()
+    base_params = _baseline_params()
+    base_vocab_defaults = _baseline_defaults()
+    for _round2 in range(6):
+        present = {key: (mod, cls, fn) for key, mod, cls, fn, _c in _functions(mods)}
+        missing = [k for k, d in baseline.items() if k not in present and d and not nested(k) and '@' not in k]
+        if not missing:
+            break
         used = set()
         for mod, tree in mods.items():
             if mod == 'luts':
@@ -1798,21 +1866,6 @@ def undo_renames(mods):
                     used.add(x.attr)
                 elif isinstance(x, (ast.FunctionDef, ast.ClassDef)):
                     used.add(x.name)
-
-        def vocab(fn):
-            out = set()
-            for x in ast.walk(fn):
-                if x is fn:
-                    continue
-                if isinstance(x, ast.Name):
-                    out.add(x.id)
-                elif isinstance(x, ast.Attribute):
-                    out.add(x.attr)
-                elif isinstance(x, ast.Constant) and not (isinstance(x.value, str) and len(x.value) > 20):
-                    out.add(repr(x.value))
-            return out
-        base_vocab = _baseline_vocab()
-        base_vocab_defaults = _baseline_defaults()
         pairs = {}
         for old in sorted(missing):
             oldname = old.split(':')[1].split('.')[-1]
@@ -1821,35 +1874,47 @@ def undo_renames(mods):
             if (oldname in used and not still_there) or oldname.startswith('__') or old not in base_vocab:
                 continue
             arity, ov = base_vocab[old]
-            cands = []
-            for k, (mod, cls, fn) in present.items():
-                if k in baseline or k[:len(k) - len(fn.name)] != scope or fn.name in base_names or fn.name in pairs:
-                    continue
-                a = fn.args
-                if len(a.posonlyargs + a.args) != arity or a.vararg or a.kwarg:
-                    continue
-                if len(a.defaults) != base_vocab_defaults.get(old, len(a.defaults)):
-                    continue          # a parameter gained or lost its default: more than a restyling (two functions merged, say)
-                nv = vocab(fn)
-                j = len(ov & nv) / max(1, len(ov | nv))
-                cands.append((j, fn.name))
-            cands.sort(reverse=True)
-            if cands and cands[0][0] >= 0.8 and (len(cands) == 1 or cands[1][0] < cands[0][0] - 0.15):
-                newname = cands[0][1]
-                if sum(1 for k, (m_, c_, fn) in present.items() if fn.name == newname) == 1:
-                    pairs[newname] = oldname
-        if pairs:
-            for mod, tree in mods.items():
-                if mod == 'luts':
-                    continue
-                for x in ast.walk(tree):
-                    if isinstance(x, ast.Name) and x.id in pairs:
-                        x.id = pairs[x.id]
-                    elif isinstance(x, ast.Attribute) and x.attr in pairs:
-                        x.attr = pairs[x.attr]
-                    elif isinstance(x, ast.FunctionDef) and x.name in pairs:
-                        x.name = pairs[x.name]
-            done.update(pairs)
+            ovp = ov - set(base_params.get(old, ()))
+            for cross in (False, True):
+                if cross and not scope.endswith(':') and (base_params.get(old) or ['self'])[0] in ('self', 'cls'):
+                    break             # only module-level functions and static methods are followed into another module
+                cands = []
+                for k, (mod, cls, fn) in present.items():
+                    kscope = k[:len(k) - len(fn.name)]
+                    if k in baseline or fn.name in base_names or fn.name in pairs:
+                        continue
+                    if (not cross and kscope != scope) or (cross and (cls is not None or not kscope.endswith(':') or kscope == scope)):
+                        continue
+                    a = fn.args
+                    if len(a.posonlyargs + a.args) != arity or a.vararg or a.kwarg:
+                        continue
+                    if len(a.defaults) != base_vocab_defaults.get(old, len(a.defaults)):
+                        continue          # a parameter gained or lost its default: more than a restyling (two functions merged, say)
+                    nv = vocab(fn)
+                    nvp = nv - {p_.arg for p_ in a.posonlyargs + a.args + a.kwonlyargs}
+                    jq = max(len(ov & nv) / max(1, len(ov | nv)), len(ovp & nvp) / max(1, len(ovp | nvp)))
+                    cands.append((jq, fn.name))
+                cands.sort(reverse=True)
+                if cands and cands[0][0] >= 0.8 and (len(cands) == 1 or cands[1][0] < cands[0][0] - 0.15):
+                    newname = cands[0][1]
+                    if sum(1 for k, (m_, c_, fn) in present.items() if fn.name == newname) == 1:
+                        pairs[newname] = oldname
+                    break
+        if not pairs:
+            break
+        for mod, tree in mods.items():
+            if mod == 'luts':
+                continue
+            for x in ast.walk(tree):
+                if isinstance(x, ast.Name) and x.id in pairs:
+                    x.id = pairs[x.id]
+                elif isinstance(x, ast.Attribute) and x.attr in pairs:
+                    x.attr = pairs[x.attr]
+                elif isinstance(x, ast.FunctionDef) and x.name in pairs:
+                    x.name = pairs[x.name]
+                elif isinstance(x, ast.alias) and x.name in pairs:
+                    x.name = pairs[x.name]
+        done.update(pairs)
     return done
 
 
@@ -1857,6 +1922,60 @@ def _baseline_defaults():
     try:
         with open(os.path.join(HERE, 'reason_digests.json')) as fh:
             return json.load(fh).get('*defaults', {})
+    except (OSError, ValueError):
+        return {}
+
+
+def erase_keyword_only(mods):
+    """A parameter of a reviewed function that was merely made keyword-only (`def f(i, length, *, signed)`, every call updated to
+    `f(i, n, signed=False)`) is read in the positional form the rules know: the bare `*` is dropped where the parameter list is
+    otherwise exactly the reviewed one, and calls by that (unique) name pass those arguments positionally again when everything
+    before them is positional.  Binding of arguments to parameters is unchanged.  Returns the names rewritten."""
+    base = _baseline_params()
+    done = set()
+    names = {}
+    for key, mod, cls, fn, _c in _functions(mods):
+        names.setdefault(fn.name, []).append(key)
+    for key, mod, cls, fn, _c in _functions(mods):
+        a = fn.args
+        if not a.kwonlyargs or a.vararg or a.kwarg or key not in base or len(names[fn.name]) != 1:
+            continue
+        now = [p_.arg for p_ in a.posonlyargs + a.args + a.kwonlyargs]
+        if now != list(base[key]):
+            continue
+        if any(d is None for d in a.kw_defaults) and a.defaults:
+            continue              # a required parameter would follow a defaulted one
+        moved = [p_.arg for p_ in a.kwonlyargs]
+        start = len(a.posonlyargs + a.args)
+        a.args = a.args + a.kwonlyargs
+        a.defaults = a.defaults + [d for d in a.kw_defaults if d is not None]
+        a.kwonlyargs, a.kw_defaults = [], []
+        params = [p_.arg for p_ in a.posonlyargs + a.args]
+        if cls is not None and _kind(fn) in ('plain', 'class'):
+            params = params[1:]
+            start -= 1
+        for m2, t2 in mods.items():
+            if m2 == 'luts':
+                continue
+            for c in ast.walk(t2):
+                if isinstance(c, ast.Call) and ((isinstance(c.func, ast.Name) and c.func.id == fn.name) or (isinstance(c.func, ast.Attribute) and c.func.attr == fn.name)) \
+                        and not any(isinstance(x, ast.Starred) for x in c.args) and not any(k.arg is None for k in c.keywords):
+                    while len(c.args) >= start and len(c.args) < len(params):
+                        nxt = params[len(c.args)]
+                        kw = [k for k in c.keywords if k.arg == nxt]
+                        if nxt not in moved or len(kw) != 1:
+                            break
+                        c.args.append(kw[0].value)
+                        c.keywords.remove(kw[0])
+        done.add(fn.name)
+    return done
+
+
+def _baseline_params():
+    try:
+        with open(os.path.join(HERE, 'reason_digests.json')) as fh:
+            v = json.load(fh).get('*vocab', {})
+            return {k: list(val[2]) if len(val) > 2 else [] for k, val in v.items()}
     except (OSError, ValueError):
         return {}
 
